@@ -13,9 +13,10 @@ build() { # profile-flag target-subdir
   fi
 }
 
-# which properties also run in the dev profile (micromap's debug assertions + overflow checks on)
-case "$PROP" in C01|C03|C05|C18) DEV=1 ;; *) DEV=0 ;; esac
-[ "$MODE" = "thorough" ] && DEV=1
+# every property is decided in both build profiles: dev (micromap's debug assertions and
+# integer-overflow checks on) and release (off). Regressions hidden behind debug_assert!, or
+# present only where the release profile lacks a check, show in exactly one of the two.
+DEV=1
 
 if [ "$PROP" = "C20" ]; then
   exec "$VERIF_DIR/tools/run_c20.sh" "$MODE" "$ARG"
@@ -37,7 +38,10 @@ run() { # binary, extra env...
   if [ $rc -eq 124 ]; then echo "INCONCLUSIVE: watchdog ($WATCHDOG s) expired"; exit 2; fi
   if [ $rc -gt 2 ]; then
     # abnormal end (signal / abort): journaled case decides
-    "$VERIF_DIR/tools/after_crash.sh" "$bin" "$PROP"; exit $?
+    VERIF_MODE="$MODE" "$VERIF_DIR/tools/after_crash.sh" "$bin" "$PROP" "$@"; rc=$?
+    # a clean pass of the retry counts as a pass of this profile; go on with the next one
+    [ $rc -ne 0 ] && exit $rc
+    return 0
   fi
   return $rc
 }
